@@ -77,6 +77,10 @@ def parse_events(s):
     return evs
 
 
+def coarse_derr(o):
+    return re.sub(r"EX[0-9a-f.]*", "EX", re.sub(r"EI\d+,\d+,\d,\d+,\d", "EI", o))
+
+
 def unhx(h):
     return b"" if h == "." else bytes.fromhex(h)
 
@@ -104,7 +108,10 @@ class Prop:
         return out
 
     def project(self, case, out):
-        return out
+        # default projection of the correspondence check: everything, except the diagnostic detail inside
+        # InvalidMessage{..} / InvalidEsc(..) - no property constrains it (the oracles of C14/C15 compare it
+        # implementation-vs-implementation where "identical behaviour" is the claim)
+        return coarse_derr(out)
 
     def nontrivial(self, case, out):
         return True
@@ -193,7 +200,8 @@ class C01(Prop):
                  "decode_fn (frame p) = [RMsg p] /\\ "
                  "(snd (di_all cap (length (frame p) + 2) (di_new (frame p))) = [RMsg p] /\\ "
                  "forall k, di_extra cap k (fst (di_all cap (length (frame p) + 2) (di_new (frame p)))) = repeat None k) /\\ "
-                 "(forall kind, kind <> KEh -> snd (rd_all cap (length (frame p) + 2) (rd_new kind (map SByte (frame p)))) = [RdOk p])")]
+                 "(forall kind, kind <> KEh -> snd (rd_all cap (length (frame p) + 2) (rd_new kind (map SByte (frame p)))) = [RdOk p])"),
+                ("C01_injective", "forall p q : list N, frame p = frame q -> p = q")]
     level_text = ("Theorem C01_roundtrip (Coq, closed): for every payload and every buffer holding |p| bytes, both encoders yield frame p and "
                   "the push decoder, decode(), decode_streaming and the slice/iterator/io::Read readers yield exactly p at the last byte "
                   "and nothing else (forward simulation along the encoder loop incl. the 8-bit pad counter, zero cache and re-alignment). "
@@ -217,11 +225,16 @@ class C01(Prop):
             else:
                 c = rng.choice([x for x in gen.CAP_MENU if x >= len(p)] or [None])
                 cap = str(c) if c is not None else "-"
+            if len(p) > 20000:
+                cap = "-"      # the model's capacity test is linear in the buffer length: giant payloads go to the growable buffer
             out.append(Case("rt %s %s" % (cap, hx(p)), "rt" + ("-vec" if cap == "-" else "-array"), dict(p=hx(p))))
         if tier == "thorough":
             for b in gen.small_bodies(7):
                 c = gen.cap_at_least(len(b))
                 out.append(Case("rt %d %s" % (c, hx(b)), "small", dict(p=hx(b))))
+            for _ in range(4):      # largest bounded buffer that the model runs in seconds: 16 KiB at exact capacity
+                p = gen.payload(rng, 16384)
+                out.append(Case("rt 16384 %s" % hx(p), "rt-array", dict(p=hx(p))))
         return out
 
     def nontrivial(self, case, out):
@@ -314,7 +327,13 @@ class C02(Prop):
     theorems = [("C02_sound",
                  "forall (cap : cap_t) (ops : list op) (i : nat) (m : list N), Forall op_ok ops -> "
                  "nth_error (snd (run_ops cap init ops)) i = Some (EvPush OMsg m) -> "
-                 "exists pre, trailing (firstn (S i) ops) [] = pre ++ frame m")]
+                 "exists pre, trailing (firstn (S i) ops) [] = pre ++ frame m"),
+                ("C02_frontends",
+                 "forall (s m : list N), bytes_ok s -> "
+                 "(In (RMsg m) (decode_fn s) -> exists pre suf, s = pre ++ frame m ++ suf) /\\ "
+                 "(forall cap, In (RMsg m) (snd (di_all cap (length s + 2) (di_new s))) -> exists pre suf, s = pre ++ frame m ++ suf) /\\ "
+                 "(forall cap kind, kind <> KEh -> In (RdOk m) (snd (rd_all cap (length s + 2) (rd_new kind (map SByte s)))) -> "
+                 "exists pre suf, s = pre ++ frame m ++ suf)")]
     suite_names = "S-DEC/S-FRONT (dec, fdecode, fstream)"
     level_text = ("Theorem C02_sound (Coq, closed under the global context): for every capacity and every history of push_byte/finalize/"
                   "reset/from_buf, a reported payload m implies the bytes pushed since the last boundary end with frame m - unbounded in "
@@ -1231,6 +1250,20 @@ def split_parse_out(o):
     return comp, ([] if items == "." else items.split(";")), ([] if extras == "." else extras.split(";"))
 
 
+def coarse_errors(o):
+    """the error KIND is not part of a property that only demands 'an error': compare err vs data"""
+    return re.sub(r"err:[A-Za-z0-9_:]+", "err", o)
+
+
+def errors_agree(o):
+    """C09: keep whether both parsers report the SAME error kind, not which one"""
+    comp, items, extras = split_parse_out(o)
+    ce = comp if comp.startswith("err:") else None
+    se = [x for x in items if x.startswith("err:")]
+    same = "same" if (ce is None and not se) or (ce is not None and se == [ce]) else "DIFFERENT(%s vs %s)" % (ce, se)
+    return coarse_errors(o) + " {" + same + "}"
+
+
 def sml_valid_cases(rng, n):
     out = []
     for _ in range(n):
@@ -1287,7 +1320,8 @@ class ParserProp(Prop):
     suite_names = "S-PARSE (parse)"
 
     def project(self, case, out):
-        return out
+        # C03 / C04 / C12 demand the exact content or *an* error: which error kind is not constrained
+        return coarse_errors(out)
 
 
 class C03(ParserProp):
@@ -1440,7 +1474,9 @@ class C06(ParserProp):
     def project(self, case, out):
         if case.line.startswith("palloc"):
             return ""
-        return "panic" if has_panic(out) else out
+        # totality: a value or an error, never a panic; the iteration ends (what is returned is C03/C04/C09's business)
+        comp, items, extras = split_parse_out(out)
+        return "panic" if has_panic(out) else "returns/%s" % ";".join(extras)
 
     def nontrivial(self, case, out):
         return len(case.meta.get("d", b"")) > 8
@@ -1524,6 +1560,9 @@ class C09(ParserProp):
             "mutations; the streaming events up to the first error are reassembled (Rust vs Rust) and compared with the allocating "
             "parser's file; error iff error, same kind; n announced values -> exactly n value events and one end event. "
             "non-trivial = at least one streaming event")
+
+    def project(self, case, out):
+        return errors_agree(out)
 
     def cases(self, tier, rng):
         n = 3000 if tier == "quick" else 50000
@@ -1701,7 +1740,8 @@ class C13(ParserProp):
 
     def project(self, case, out):
         comp, items, extras = split_parse_out(out)
-        return "%d/%s/%s" % (len(items), ";".join(x for x in items if x.startswith("err:") or x == "P"), ";".join(extras))
+        return "%d/%s/%s" % (len(items), ";".join("%d:%s" % (k, "err" if x != "P" else "P") for k, x in enumerate(items)
+                                                    if x.startswith("err:") or x == "P"), ";".join(extras))
 
     def nontrivial(self, case, out):
         return " # .|" not in out
